@@ -26,6 +26,20 @@
  *    two r, one detached, then w; r, detach, w), select the same image / data set twice: the w attach is refused, every mutator
  *    through every id of the object fails, and what the session reads about the object afterwards (names, classes, members,
  *    fields, counts, attributes, chunk/compression info, first data value) is what it read before (ro-view-changed:<family>).
+ *    "Nothing to do" requests (quiet_sd/v/vs/gr/an/h): every mutating entry point is also tried with the arguments for which the
+ *    library has a short way out - the value that is stored already (read through the same handle), a name in use by a compatible
+ *    object (SDsetdimname with the name of another dimension of the same size merges the two), of an incompatible one, the object's
+ *    own name, a member that is there / a non-member, a ref that selects nothing, zero counts and zero edges, NULL and empty strings,
+ *    an attribute with identical content, the stored chunk / compression / palette / record / bytes: refused like any other request
+ *    (ro-mutation-accepted:*), the object reads the same afterwards (ro-view-changed:*), SDfileinfo counts the same
+ *    (ro-view-changed:SD-count).  The files carry the metadata this needs (fill value, strings, calibration, range, named and shared
+ *    dimensions, scales, dimension attributes, equal-sized distinct dimensions, a palette).  Every id the session holds is viewed when
+ *    obtained and when given back.  The SD part is also TIED to the model H4.AttrSD (lines `T ro sd.*`, see sd_snapshot): the model,
+ *    opened read-only on a description of the file, answers `fail` to every write request (theorems H4.Props.C14SD) and answers the
+ *    inquiries that follow from its unchanged state.
+ *    ASSUMPTION (rule read off the unchanged library): the only write-class requests a read-only handle may answer with SUCCEED are
+ *    SDwritedata with a zero edge (nothing to store, SUCCEED on writable files too) and SDsetexternalfile on a data set that is
+ *    external already (documented no-op); calls that only set a parameter of the handle are not write requests.
  * C  RDWR open + close with no edits through H, through SD and through GR: every object reads back identical
  *    (rw-noop-content); STAT rw_noop_bytes_same/_diff says whether the bytes are identical too.
  */
@@ -34,6 +48,7 @@
 #include "mfhdf.h"
 #include "hfile_priv.h"
 #include "hchunks_priv.h"
+#include "mf_priv.h"
 #include "hk.h"
 #include "workloads.h"
 
@@ -92,6 +107,46 @@ static int build_file(const char *path, int k)
         if (hk_chance(40)) { sds = SDcreate(sd, "extsds", DFNT_INT32, 2, dims); SDsetexternalfile(sds, sdext, 0); SDwritedata(sds, st, NULL, dims, v); SDendaccess(sds); }
         if (hk_chance(40)) { comp_info ci; memset(&ci, 0, sizeof ci); ci.deflate.level = 2; sds = SDcreate(sd, "comp", DFNT_INT32, 2, dims); SDsetcompress(sds, COMP_CODE_DEFLATE, &ci); SDwritedata(sds, st, NULL, dims, v); SDendaccess(sds); }
         if (SDend(sd) == FAIL) return -1;
+    }
+    /* stored metadata, so that "the stored value again" exists for every setter: fill value, strings, calibration, range, named and
+       merged (shared) dimensions, a dimension scale, dimension strings, a dimension attribute; a twin of "temp" whose dimensions
+       are distinct dimensions of the same sizes (or merged with temp's); a palette */
+    if (rich && hk_chance(75)) {
+        int32 sd = SDstart(path, DFACC_RDWR), s; if (sd == FAIL) return -1;
+        int named0 = 0;
+        s = SDselect(sd, SDnametoindex(sd, "temp"));
+        if (s != FAIL) {
+            int16 fv = (int16)(k - 3), mx = 900, mn = -900;
+            if (hk_chance(60)) SDsetfillvalue(s, &fv);
+            if (hk_chance(60)) SDsetdatastrs(s, "label", hk_chance(50) ? "unit" : NULL, "fmt", hk_chance(50) ? "cs" : NULL);
+            if (hk_chance(50)) SDsetcal(s, 2.0, 0.5, 1.0, 0.25, DFNT_INT16);
+            if (hk_chance(50)) SDsetrange(s, &mx, &mn);
+            int32 d0 = SDgetdimid(s, 0), d1 = SDgetdimid(s, 1);
+            if (hk_chance(70)) named0 = SDsetdimname(d0, "rows") != FAIL;
+            if (hk_chance(40)) SDsetdimname(d1, "cols");
+            if (hk_chance(60)) { int32 sc[4] = {10, 20, 30, 40 + k}; int16 sc16[4] = {1, 2, 3, (int16)k}; if (hk_chance(50)) SDsetdimscale(d0, 4, DFNT_INT32, sc); else SDsetdimscale(d0, 4, DFNT_INT16, sc16); }
+            if (hk_chance(50)) SDsetdimstrs(d0, "dl", "du", hk_chance(50) ? "df" : NULL);
+            if (hk_chance(40)) { float32 f = 1.5f; SDsetattr(d1, "dattr", DFNT_FLOAT32, 1, &f); }
+            SDendaccess(s);
+        }
+        { int32 nds = 0, nga = 0; SDfileinfo(sd, &nds, &nga);   /* any data set may carry a fill value, strings, a range */
+          for (int32 i = 0; i < nds; i++) { int32 t = SDselect(sd, i); if (t == FAIL) continue;
+              if (!SDiscoordvar(t)) { uint8 fv8[8]; for (int j = 0; j < 8; j++) fv8[j] = (uint8)(k + 3 * j + i);
+                  if (hk_chance(40)) SDsetfillvalue(t, fv8);
+                  if (hk_chance(25)) SDsetdatastrs(t, "l", NULL, NULL, "c");
+                  if (hk_chance(25)) SDsetrange(t, fv8, fv8); }
+              SDendaccess(t); } }
+        if (hk_chance(60)) { int32 dims[2] = {4, 6}, st[2] = {0, 0}; int16 v[24]; for (int i = 0; i < 24; i++) v[i] = (int16)(i - k);
+            s = SDcreate(sd, "twin", DFNT_INT16, 2, dims);
+            if (s != FAIL) { SDwritedata(s, st, NULL, dims, v); if (named0 && hk_chance(40)) SDsetdimname(SDgetdimid(s, 0), "rows"); SDendaccess(s); } }
+        if (SDend(sd) == FAIL) return -1;
+    }
+    if (rich && hk_chance(50)) {
+        int32 fid2 = Hopen(path, DFACC_RDWR, 0); if (fid2 == FAIL) return -1;
+        int32 gr = GRstart(fid2), ri = gr != FAIL ? GRselect(gr, 0) : FAIL, lut = ri != FAIL ? GRgetlutid(ri, 0) : FAIL;
+        if (lut != FAIL) { static uint8 pal[768]; for (int i = 0; i < 768; i++) pal[i] = (uint8)(i * 7 + k); GRwritelut(lut, 3, DFNT_UINT8, MFGR_INTERLACE_PIXEL, 256, pal); }
+        if (ri != FAIL) GRendaccess(ri); if (gr != FAIL) GRend(gr);
+        if (Hclose(fid2) == FAIL) return -1;
     }
     return 0;
 }
@@ -169,7 +224,7 @@ static long ro_base; /* wr_nlog when the record was last opened from the closed 
 static const char *family(const char *api, unsigned *bit)
 {
     static const struct { const char *pfx; const char *fam; } tab[] = {
-        {"VS", "VS"}, {"VH", "VS"}, {"V", "V"}, {"SDcreate", "SD-create"}, {"SDsetdim", "SD-dim"}, {"SDwritedata", "SD-data"}, {"SDwritechunk", "SD-data"}, {"SDsetcompress", "SD-data"},
+        {"VS", "VS"}, {"VH", "VS"}, {"V", "V"}, {"SDcreate", "SD-create"}, {"SDsetdimval_comp", "SD-dimval-comp"}, {"SDsetdim", "SD-dim"}, {"SDsetnbit", "SD-data"}, {"SDwritedata", "SD-data"}, {"SDwritechunk", "SD-data"}, {"SDsetcompress", "SD-data"},
         {"SDsetchunk", "SD-data"}, {"SDsetexternalfile", "SD-data"}, {"SD", "SD-attr"}, {"GR", "GR"}, {"AN", "AN"} };
     for (unsigned i = 0; i < sizeof tab / sizeof tab[0]; i++) if (strncmp(api, tab[i].pfx, strlen(tab[i].pfx)) == 0) { *bit = 1u << (i + 1); return tab[i].fam; }
     *bit = 1u; return NULL;
@@ -183,8 +238,8 @@ static void after_call(const char *api, int mutating, long result)
     if (wr_nlog > ro_base && !flagged_write) { flagged_write = 1; char key[96]; snprintf(key, sizeof key, "ro-write-issued:%s", wr_log[ro_base].ctx); hk_fail(key, "%ld fwrite request(s) on a read-only session, first during %s on %s (noticed after %s)", wr_nlog - ro_base, wr_log[ro_base].ctx, wr_names[wr_log[ro_base].stream], api); }
     if (mutating && result != FAIL) {
         unsigned bit; const char *fam = family(api, &bit);
-        if (!(flagged_accept & bit)) { flagged_accept |= bit; char key[96]; if (fam) snprintf(key, sizeof key, "ro-mutation-accepted:%s", fam); else snprintf(key, sizeof key, "ro-mutation-accepted:H:%s", api); hk_fail(key, "%s returned %ld on a read-only handle", api, result); }
-        char nm[80]; snprintf(nm, sizeof nm, "accepted_%s", api); for (char *q = nm; *q; q++) if (*q == '(' || *q == ')' || *q == ',' || *q == '-') *q = '_'; hk_stat(nm, 1);
+        if (!(flagged_accept & bit)) { flagged_accept |= bit; char key[96]; if (fam) snprintf(key, sizeof key, "ro-mutation-accepted:%s", fam); else { snprintf(key, sizeof key, "ro-mutation-accepted:H:%s", api); char *par = strchr(key, '('); if (par) *par = 0; } hk_fail(key, "%s returned %ld on a read-only handle", api, result); }
+        char nm[80]; snprintf(nm, sizeof nm, "accepted_%s", api); for (char *q = nm; *q; q++) if (*q == '(' || *q == ')' || *q == ',' || *q == '-' || *q == '+') *q = '_'; hk_stat(nm, 1);
     }
 }
 #define CALL(api, mut, expr) (wr_ctx = api, r_ = (long)(expr), after_call(api, mut, r_), r_)
@@ -281,7 +336,8 @@ static void part_a(const char *path, int k)
         }
         if (op < 54) { a = pick_a(); int len = hk_chance(30) ? 0 : (int)hk_range(-1, 200); int sp = aid_special(A(a)); long rr = CALL("Hread", 0, Hread(A(a), len, buf)); printf("T ro read a%d %d => ", a, len); res_num(rr, sp); continue; }
         if (op < 60) {
-            a = pick_a(); int len = (int)hk_range(1, 40); for (int j = 0; j < len; j++) buf[j] = hk_byte(); int sp = aid_wspecial(A(a));
+            a = pick_a(); int len = ro_mode && hk_chance(15) ? 0 : (int)hk_range(1, 40); /* a zero-length write is a write request too (read-only sessions only: the model of a writable session is not asked) */
+            for (int j = 0; j < len; j++) buf[j] = hk_byte(); int sp = aid_wspecial(A(a));
             long rr = CALL("Hwrite", 1, Hwrite(A(a), len, buf)); sp |= aid_wspecial(A(a)); /* Hwrite may have promoted the element to linked blocks */
             printf("T ro write a%d ", a); hk_hex(buf, (size_t)len); printf(" => "); res_num(rr, sp); if (sp) opaque = 1; continue;
         }
@@ -294,7 +350,7 @@ static void part_a(const char *path, int k)
             printf("T ro getelement f%d %d %d => ", f, t, r); res_num(rr > (long)sizeof buf ? -2 : rr, sp); continue;
         }
         if (op < 82) {
-            f = pick_f(); pick_tr(&t, &r, 1); int len = (int)hk_range(1, 60); for (int j = 0; j < len; j++) buf[j] = hk_byte();
+            f = pick_f(); pick_tr(&t, &r, 1); int len = ro_mode && hk_chance(15) ? 0 : (int)hk_range(1, 60); for (int j = 0; j < len; j++) buf[j] = hk_byte();
             long rr = CALL("Hputelement", 1, Hputelement(F(f), t, r, buf, len)); printf("T ro putelement f%d %d %d ", f, t, r); hk_hex(buf, (size_t)len); printf(" => "); res_num(rr, 0); continue;
         }
         if (op < 85) { f = pick_f(); pick_tr(&t, &r, 0); int sp = 0; { int32 l_ = Hstartread(F(f), t, r); if (l_ != FAIL) { sp = aid_special(l_); Hendaccess(l_); } } long rr = CALL("Hlength", 0, Hlength(F(f), t, r)); printf("T ro length f%d %d %d => ", f, t, r); res_num(rr, sp); continue; }
@@ -373,15 +429,30 @@ static void view_ri(int32 ri, view_t *v)
 }
 static void view_sds(int32 s_, view_t *v)
 {
-    char nm[H4_MAX_NC_NAME + 1] = "", dn[H4_MAX_NC_NAME + 1] = "", l[64] = "", u[64] = "", f[64] = "", c[64] = ""; int32 rk = -1, dm[H4_MAX_VAR_DIMS], nt = -1, na = -1, fl = -1, dsz = -1, dnt = -1, dna = -1;
+    char nm[H4_MAX_NC_NAME + 1] = "", l[64] = "", u[64] = "", f[64] = "", c[64] = ""; int32 rk = -1, dm[H4_MAX_VAR_DIMS], nt = -1, na = -1, fl = -1;
     comp_coder_t ct = COMP_CODE_INVALID; comp_info ci; HDF_CHUNK_DEF cd; unsigned char fill[16]; memset(fill, 0, sizeof fill); memset(&ci, 0, sizeof ci); memset(&cd, 0, sizeof cd); dm[0] = -1;
+    static unsigned char ab[4096];
     SDgetinfo(s_, nm, &rk, dm, &nt, &na); SDgetchunkinfo(s_, &cd, &fl); SDgetcompinfo(s_, &ct, &ci);
     int hasfill = SDgetfillvalue(s_, fill) != FAIL; SDgetdatastrs(s_, l, u, f, c, 63);
-    int32 dim = rk > 0 ? SDgetdimid(s_, 0) : FAIL; if (dim != FAIL) SDdiminfo(dim, dn, &dsz, &dnt, &dna);
     static unsigned char el[64]; memset(el, 0, sizeof el); long rd = -9;
     if (rk > 0 && rk <= 4 && dm[0] > 0) { int32 st[4] = {0, 0, 0, 0}, ct1[4] = {1, 1, 1, 1}; rd = (long)SDreaddata(s_, st, NULL, ct1, el); }
-    snprintf(v->s, sizeof v->s, "name='%s' rank=%d dim0=%d nt=%d nattrs=%d chunkflags=%d comp=%d fill=%d:%02x%02x%02x%02x%02x%02x%02x%02x strs='%s','%s','%s','%s' dimname='%s' dimsize=%d dimnt=%d dimnattrs=%d ext=%d read=%ld:%02x%02x%02x%02x",
-             nm, (int)rk, (int)dm[0], (int)nt, (int)na, (int)fl, (int)ct, hasfill, fill[0], fill[1], fill[2], fill[3], fill[4], fill[5], fill[6], fill[7], l, u, f, c, dn, (int)dsz, (int)dnt, (int)dna, (int)SDgetexternalinfo(s_, 0, NULL, NULL, NULL), rd, el[0], el[1], el[2], el[3]);
+    int o = snprintf(v->s, sizeof v->s, "name='%s' rank=%d dim0=%d nt=%d nattrs=%d chunkflags=%d comp=%d fill=%d:%02x%02x%02x%02x%02x%02x%02x%02x strs='%s','%s','%s','%s' ext=%d read=%ld:%02x%02x%02x%02x",
+             nm, (int)rk, (int)dm[0], (int)nt, (int)na, (int)fl, (int)ct, hasfill, fill[0], fill[1], fill[2], fill[3], fill[4], fill[5], fill[6], fill[7], l, u, f, c, (int)SDgetexternalinfo(s_, 0, NULL, NULL, NULL), rd, el[0], el[1], el[2], el[3]);
+    /* every dimension: name, size, attribute count, strings.  Not the scale type: SDdiminfo reports it as 0 until the coordinate
+       variable's data has been READ once in the session (NCvario raises numrecs), so reading changes it; the scale values are
+       compared where a scale is requested (quiet_sd) */
+    for (int k = 0; k < rk && k < 4 && o < (int)sizeof v->s - 400; k++) {
+        char dn[H4_MAX_NC_NAME + 1] = "", dl[64] = "", du[64] = "", df[64] = ""; int32 dsz = -1, dnt = -1, dna = -1;
+        int32 dim = SDgetdimid(s_, k);
+        if (dim != FAIL) { SDdiminfo(dim, dn, &dsz, &dnt, &dna); SDgetdimstrs(dim, dl, du, df, 63); }
+        o += snprintf(v->s + o, sizeof v->s - (size_t)o, " dim%d='%.80s'/%d/%d/'%s','%s','%s'", k, dn, (int)dsz, (int)dna, dl, du, df);
+    }
+    /* every attribute of the data set: name, type, count, value */
+    for (int a = 0; a < na && a < 12 && o < (int)sizeof v->s - 200; a++) {
+        char an_[H4_MAX_NC_NAME + 1] = ""; int32 at = -1, ac = -1; uint64_t ah = 0;
+        if (SDattrinfo(s_, a, an_, &at, &ac) != FAIL && ac >= 0 && (long)ac * DFKNTsize(at) <= (long)sizeof ab && SDreadattr(s_, a, ab) != FAIL) ah = fnv(FNV0, ab, (size_t)(ac * DFKNTsize(at)));
+        o += snprintf(v->s + o, sizeof v->s - (size_t)o, " att%d='%.60s'/%d/%d/%llx", a, an_, (int)at, (int)ac, (unsigned long long)ah);
+    }
 }
 static void view_cmp(const char *fam, const char *what, const view_t *a, const view_t *b)
 {
@@ -472,12 +543,319 @@ static void reopen_sds(int32 sd, int32 nsds, int32 *ibuf)
     hk_stat("reopen_sds", 1);
 }
 
+/* ---- part B, requests that leave "nothing to do" -----------------------------------------------------------------------
+ * Every mutating entry point has argument values for which the library takes a short way out: the value that is stored
+ * already, a name that is in use by a compatible object (SDsetdimname with the name of another dimension of the same size
+ * re-points the slot to that dimension instead of renaming), a member that is there already, a ref that selects nothing, a
+ * zero count, an attribute with identical content.  These are write requests like any other: through a read-only handle they
+ * are refused (ro-mutation-accepted:<family>) and what the handle shows afterwards is what it showed before
+ * (ro-view-changed:<family>), whatever the arguments.  The arguments are built from what the handle itself reports.
+ * Rule taken from what the unchanged library does consistently (an ASSUMPTION of the check): the only write-class request a
+ * read-only handle may answer with SUCCEED is one that has no element to store - SDwritedata with a zero edge (it returns
+ * SUCCEED without touching anything on a writable file too) - and the documented no-op SDsetexternalfile on a data set that is
+ * external already.  Calls that only set a parameter of the handle (VSsetfields, VSfdefine, SDsetblocksize, VSsetblocksize,
+ * VSsetnumblocks, VSappendable, SDsetchunkcache, GRsetaccesstype, GRreqlutil, GRreqimageil) are not write requests; for them
+ * only the view / file / write-log oracles apply. */
+static uint8 qbig[1 << 16];
+static char qdid[400];
+static int sd_view_tainted;   /* a refused SDsetnbitdataset broke a data set of this session (reported under its own key): its later views prove nothing */
+static void did(const char *what) { size_t n = strlen(qdid); if (n + strlen(what) + 2 < sizeof qdid) { if (n) qdid[n++] = ' '; strcpy(qdid + n, what); } }
+#define QCALL(api, mut, expr) (did(api), CALL(api, mut, expr))
+
+typedef struct { int32 sdsidx, k, slot, size; char name[H4_MAX_NC_NAME + 1]; } dimrow_t;
+static dimrow_t dimtab[96]; static int ndimtab;
+static void dim_table(int32 sd, int32 nsds)
+{
+    ndimtab = 0;
+    for (int32 i = 0; i < nsds && ndimtab < 96; i++) {
+        int32 s = SDselect(sd, i); if (s == FAIL) continue;
+        char nm[H4_MAX_NC_NAME + 1]; int32 rk = 0, dm[H4_MAX_VAR_DIMS], nt = 0, na = 0;
+        if (SDgetinfo(s, nm, &rk, dm, &nt, &na) != FAIL) for (int k = 0; k < rk && ndimtab < 96; k++) {
+            int32 d = SDgetdimid(s, k), dnt = 0, dna = 0; dimrow_t *r = &dimtab[ndimtab];
+            if (d != FAIL && SDdiminfo(d, r->name, &r->size, &dnt, &dna) != FAIL) { r->sdsidx = i; r->k = k; r->slot = d & 0xffff; ndimtab++; } }
+        SDendaccess(s);
+    }
+}
+/* ---- part B, the SD session is mirrored in the model (H4.AttrSD through the `sd.*` lines of driver Ro): the harness describes
+ * the file as the library built it in memory (dimension table, variables, attribute lists: `sd.dim` / `sd.var` / `sd.att`), opens
+ * the model read-only (`sd.start r`), and from then on every write request of quiet_sd that the model has is a T line (the model
+ * answers `fail`, state unchanged: theorems H4.Props.C14SD) followed by what the session shows (`sd.fileinfo`, `sd.getinfo`,
+ * `sd.diminfo3`, `sd.attrinfo`, `sd.readattr`, `sd.getfill`), which the model answers from the state it was given at the start. */
+static int sd_tied;
+static void tsd_opt(const char *s_) { if (!s_) printf("N"); else hk_hex(s_, strlen(s_)); }
+static void tsd_res(long r) { printf(" => %s\n", r == FAIL ? "fail" : "ok"); }
+static void tsd_attrs(const char *tgt, unsigned vi, NC_array *attrs)
+{
+    if (!attrs) return;
+    for (unsigned j = 0; j < attrs->count; j++) { NC_attr *a = ((NC_attr **)attrs->values)[j];
+        if (tgt[0] == 'g') printf("T ro sd.att g "); else printf("T ro sd.att v%u ", vi);
+        hk_hex(a->name->values, a->name->len); printf(" %d %u ", (int)a->HDFtype, a->data->count); hk_hex(a->data->values, (size_t)a->data->count * a->data->szof); printf(" => ok\n"); }
+}
+static void sd_snapshot(int32 sd)
+{
+    sd_tied = 0; NC *h = sd != FAIL ? SDIhandle_from_id(sd, CDFTYPE) : NULL; if (!h || h->file_type != HDF_FILE) return;
+    if (h->dims) for (unsigned i = 0; i < h->dims->count; i++) { NC_dim *d = ((NC_dim **)h->dims->values)[i]; printf("T ro sd.dim "); hk_hex(d->name->values, d->name->len); printf(" %ld => ok\n", (long)d->size); }
+    if (h->vars) for (unsigned i = 0; i < h->vars->count; i++) { NC_var *v = ((NC_var **)h->vars->values)[i];
+        printf("T ro sd.var "); hk_hex(v->name->values, v->name->len); printf(" %d ", (int)v->HDFtype);
+        if (!v->assoc || v->assoc->count == 0) printf("-"); else for (unsigned k = 0; k < v->assoc->count; k++) printf("%s%d", k ? "," : "", v->assoc->values[k]);
+        printf(" %d %d %d => ok\n", (int)v->var_type, (int)v->ndg_ref, v->numrecs != 0);
+        tsd_attrs("v", i, v->attrs); }
+    tsd_attrs("g", 0, h->attrs);
+    printf("T ro sd.start r => ok\n"); sd_tied = 1;
+}
+/* what the session shows of data set `idx` (id s): counts of the file, the data set, its dimensions, its attributes, its fill value */
+static void tsd_views(int32 sd, int32 idx, int32 s)
+{
+    if (!sd_tied) return;
+    static uint8 vb[4096]; char nm[H4_MAX_NC_NAME + 1] = ""; int32 nd = 0, ng = 0, rk = 0, dm[H4_MAX_VAR_DIMS], nt = 0, na = 0;
+    if (SDfileinfo(sd, &nd, &ng) != FAIL) printf("T ro sd.fileinfo => %d %d\n", (int)nd, (int)ng);
+    printf("T ro sd.getinfo %d => ", (int)idx);
+    if (SDgetinfo(s, nm, &rk, dm, &nt, &na) == FAIL) { printf("fail\n"); return; }
+    hk_hex(nm, strlen(nm)); printf(" %d %d %d\n", (int)rk, (int)nt, (int)na);
+    for (int k = 0; k < rk && k < 4; k++) { int32 d = SDgetdimid(s, k), dsz = 0, dnt = 0, dna = 0; char dn[H4_MAX_NC_NAME + 1] = ""; if (d == FAIL) continue;
+        printf("T ro sd.diminfo3 %d => ", (int)(d & 0xffff)); if (SDdiminfo(d, dn, &dsz, &dnt, &dna) == FAIL) printf("fail\n"); else { hk_hex(dn, strlen(dn)); printf(" %d %d\n", (int)dsz, (int)dna); } }
+    for (int a = 0; a < na && a < 4; a++) { char an_[H4_MAX_NC_NAME + 1] = ""; int32 at = 0, ac = 0;
+        printf("T ro sd.attrinfo v%d %d => ", (int)idx, a); if (SDattrinfo(s, a, an_, &at, &ac) == FAIL) { printf("fail\n"); continue; } hk_hex(an_, strlen(an_)); printf(" %d %d\n", (int)at, (int)ac);
+        if ((long)ac * DFKNTsize(at) <= (long)sizeof vb) { printf("T ro sd.readattr v%d %d => ", (int)idx, a); if (SDreadattr(s, a, vb) == FAIL) printf("fail\n"); else { hk_hex(vb, (size_t)(ac * DFKNTsize(at))); printf("\n"); } } }
+    if (ng > 0) { char an_[H4_MAX_NC_NAME + 1] = ""; int32 at = 0, ac = 0, a = (int32)hk_range(0, ng - 1);
+        printf("T ro sd.attrinfo f %d => ", (int)a); if (SDattrinfo(sd, a, an_, &at, &ac) == FAIL) printf("fail\n"); else { hk_hex(an_, strlen(an_)); printf(" %d %d\n", (int)at, (int)ac); } }
+    { int sz = DFKNTsize(nt); memset(vb, 0xAA, 16); printf("T ro sd.getfill %d => ", (int)idx); if (sz <= 0 || sz > 16 || SDgetfillvalue(s, vb) == FAIL) printf("fail\n"); else { hk_hex(vb, (size_t)sz); printf("\n"); } }
+}
+/* a write request through the SD interface: besides its result (after_call), the number of data sets and of file attributes the
+   session counts (SDfileinfo) is the same before and after it */
+static int32 qsd_id;
+#define QSD(api, expr) ({ int32 a_ = -1, b_ = -1, c_ = -1, d_ = -1; SDfileinfo(qsd_id, &a_, &b_); long q_ = QCALL(api, 1, expr); SDfileinfo(qsd_id, &c_, &d_); \
+    if (a_ != c_ || b_ != d_) hk_fail("ro-view-changed:SD-count", "%s on a read-only file: SDfileinfo counted %d data sets and %d attributes before the call, %d and %d after it", api, (int)a_, (int)b_, (int)c_, (int)d_); q_; })
+static long q_setdimname(const char *label, int32 dim, const char *name) { long r = QSD(label, SDsetdimname(dim, name)); if (sd_tied) { printf("T ro sd.setdimname %d ", (int)(dim & 0xffff)); tsd_opt(name); tsd_res(r); } return r; }
+static long q_setdimscale(const char *label, int32 dim, int32 count, int32 nt, void *buf) { long r = QSD(label, SDsetdimscale(dim, count, nt, buf));
+    if (sd_tied && count >= 0 && DFKNTsize(nt) > 0) { printf("T ro sd.setdimscale %d %d %d ", (int)(dim & 0xffff), (int)count, (int)nt); hk_hex(buf, (size_t)count * (size_t)DFKNTsize(nt)); tsd_res(r); } return r; }
+static long q_setdimstrs(const char *label, int32 dim, const char *l, const char *u, const char *f) { long r = QSD(label, SDsetdimstrs(dim, l, u, f));
+    if (sd_tied) { printf("T ro sd.setdimstrs %d ", (int)(dim & 0xffff)); tsd_opt(l); printf(" "); tsd_opt(u); printf(" "); tsd_opt(f); tsd_res(r); } return r; }
+static long q_setdatastrs(const char *label, int32 idx, int32 s, const char *l, const char *u, const char *f, const char *c) { long r = QSD(label, SDsetdatastrs(s, l, u, f, c));
+    if (sd_tied) { printf("T ro sd.setdatastrs %d ", (int)idx); tsd_opt(l); printf(" "); tsd_opt(u); printf(" "); tsd_opt(f); printf(" "); tsd_opt(c); tsd_res(r); } return r; }
+static long q_setattr(const char *label, const char *tok, int32 obj, const char *name, int32 nt, int32 count, const void *data) { long r = QSD(label, SDsetattr(obj, name, nt, count, data));
+    if (sd_tied && DFKNTsize(nt) > 0) { printf("T ro sd.setattr %s ", tok); tsd_opt(name); printf(" %d %d ", (int)nt, (int)count); hk_hex(data, count > 0 ? (size_t)count * (size_t)DFKNTsize(nt) : 0); tsd_res(r); } return r; }
+static void quiet_sd(int32 sd, int32 nsds, int32 *ibuf)
+{
+    if (sd == FAIL || nsds <= 0) return;
+    qsd_id = sd; dim_table(sd, nsds);
+    int32 idx = (int32)hk_range(0, nsds - 1); int32 s = (int32)CALL("SDselect", 0, SDselect(sd, idx)); if (s == FAIL) return;
+    char nm[H4_MAX_NC_NAME + 1] = ""; int32 rk = 0, dm[H4_MAX_VAR_DIMS], nt = 0, na = 0;
+    if (SDgetinfo(s, nm, &rk, dm, &nt, &na) == FAIL || rk <= 0 || rk > 4) { CALL("SDendaccess", 0, SDendaccess(s)); return; }
+    static view_t v0, v1; view_sds(s, &v0); qdid[0] = 0;
+    int k = (int)hk_range(0, rk - 1); int32 dim = (int32)CALL("SDgetdimid", 0, SDgetdimid(s, k));
+    char dn[H4_MAX_NC_NAME + 1] = ""; int32 dsz = 0, dnt = 0, dna = 0; if (dim != FAIL && SDdiminfo(dim, dn, &dsz, &dnt, &dna) == FAIL) dim = FAIL;
+    int32 zero[4] = {0, 0, 0, 0}, one[4] = {1, 1, 1, 1};
+    for (int rep = 0; rep < 5; rep++) switch ((int)hk_range(0, 12)) {
+        case 0: case 1: if (dim != FAIL) {   /* SDsetdimname: its own name; a name in use by another dimension of the same size (the slot would be re-pointed: "shared dimension"),
+                                                of another size (clash); the data set's name; the empty name */
+            int same[96], ns = 0, oth[96], no = 0;
+            for (int i = 0; i < ndimtab; i++) if (dimtab[i].slot != (dim & 0xffff) && strcmp(dimtab[i].name, dn) != 0) { if (dimtab[i].size == dsz) same[ns++] = i; else oth[no++] = i; }
+            q_setdimname("SDsetdimname(own-name)", dim, dn);
+            if (ns) q_setdimname("SDsetdimname(name-of-a-dimension-of-the-same-size)", dim, dimtab[same[hk_range(0, ns - 1)]].name);
+            if (no) q_setdimname("SDsetdimname(name-of-a-dimension-of-another-size)", dim, dimtab[oth[hk_range(0, no - 1)]].name);
+            q_setdimname("SDsetdimname(name-of-the-data-set)", dim, nm);
+            q_setdimname("SDsetdimname(empty)", dim, "");
+            hk_stat(ns ? "quiet_dimname_shared" : "quiet_dimname", 1); } break;
+        case 2: if (dim != FAIL) {           /* SDsetdimscale: the stored scale again; count 0; a count that does not fit */
+            long n_ = dsz > 0 ? dsz : (k == 0 && dm[0] > 0 ? dm[0] : 1); int have = 0; uint64_t h0 = 0;
+            if (dnt > 0 && n_ * DFKNTsize(dnt) <= (long)sizeof qbig && SDgetdimscale(dim, qbig) != FAIL) { have = 1; h0 = fnv(FNV0, qbig, (size_t)(n_ * DFKNTsize(dnt))); q_setdimscale("SDsetdimscale(stored)", dim, (int32)n_, dnt, qbig); }
+            else { memset(qbig, 0, 4096); q_setdimscale("SDsetdimscale(first)", dim, (int32)n_, DFNT_INT32, qbig); }
+            q_setdimscale("SDsetdimscale(count0)", dim, 0, dnt > 0 ? dnt : DFNT_INT32, qbig);
+            q_setdimscale("SDsetdimscale(count+1)", dim, (int32)n_ + 1, dnt > 0 ? dnt : DFNT_INT32, qbig);
+            for (long i = 0; i < n_ * 8 && i < (long)sizeof qbig; i++) qbig[i] = (uint8)(i * 5 + 1);
+            q_setdimscale("SDsetdimscale(other-values)", dim, (int32)n_, dnt > 0 ? dnt : DFNT_INT32, qbig);
+            if (have) { int32 t2 = 0, z2 = 0, a2 = 0; char n2[H4_MAX_NC_NAME + 1];
+                if (SDdiminfo(dim, n2, &z2, &t2, &a2) == FAIL || t2 != dnt || SDgetdimscale(dim, qbig) == FAIL || fnv(FNV0, qbig, (size_t)(n_ * DFKNTsize(dnt))) != h0)
+                    hk_fail("ro-view-changed:SD", "SDsetdimscale requests on a read-only file changed the scale the session reads for dimension '%s' (type %d -> %d)", dn, (int)dnt, (int)t2); } } break;
+        case 3: if (dim != FAIL) { char l[64] = "", u[64] = "", f[64] = "";
+            if (SDgetdimstrs(dim, l, u, f, 63) != FAIL) q_setdimstrs("SDsetdimstrs(stored)", dim, l, u, f);
+            q_setdimstrs("SDsetdimstrs(null)", dim, NULL, NULL, NULL); q_setdimstrs("SDsetdimstrs(empty)", dim, "", "", ""); } break;
+        case 4: { char l[64] = "", u[64] = "", f[64] = "", c[64] = "";
+            if (SDgetdatastrs(s, l, u, f, c, 63) != FAIL) q_setdatastrs("SDsetdatastrs(stored)", idx, s, l, u, f, c);
+            q_setdatastrs("SDsetdatastrs(null)", idx, s, NULL, NULL, NULL, NULL); q_setdatastrs("SDsetdatastrs(empty)", idx, s, "", "", "", ""); } break;
+        case 5: { float64 c0 = 1.0, c1 = 0.0, c2 = 0.0, c3 = 0.0; int32 cnt = nt; uint8 mx[16], mn[16], fv[16]; memset(mx, 0, sizeof mx); memset(mn, 0, sizeof mn); memset(fv, 0, sizeof fv);
+            { int st_ = SDgetcal(s, &c0, &c1, &c2, &c3, &cnt) != FAIL; if (!st_) { c0 = 1.0; c1 = c2 = c3 = 0.0; cnt = nt; }
+              long r = QSD(st_ ? "SDsetcal(stored)" : "SDsetcal(first)", SDsetcal(s, c0, c1, c2, c3, cnt));
+              if (sd_tied) { printf("T ro sd.setcal %d ", (int)idx); hk_hex(&c0, 8); printf(" "); hk_hex(&c1, 8); printf(" "); hk_hex(&c2, 8); printf(" "); hk_hex(&c3, 8); printf(" "); hk_hex(&cnt, 4); tsd_res(r); } }
+            { long r = QSD(SDgetrange(s, mx, mn) != FAIL ? "SDsetrange(stored)" : "SDsetrange(first)", SDsetrange(s, mx, mn));
+              if (sd_tied && DFKNTsize(nt) > 0 && DFKNTsize(nt) <= 16) { printf("T ro sd.setrange %d ", (int)idx); hk_hex(mx, (size_t)DFKNTsize(nt)); printf(" "); hk_hex(mn, (size_t)DFKNTsize(nt)); tsd_res(r); } }
+            { long r = QSD(SDgetfillvalue(s, fv) != FAIL ? "SDsetfillvalue(stored)" : "SDsetfillvalue(first)", SDsetfillvalue(s, fv));
+              if (sd_tied && DFKNTsize(nt) > 0 && DFKNTsize(nt) <= 16) { printf("T ro sd.setfill %d ", (int)idx); hk_hex(fv, (size_t)DFKNTsize(nt)); tsd_res(r); } } } break;
+        case 6: {                            /* SDsetattr with the name, type, count and value of an attribute that is there (data set, file, dimension); count 0 */
+            int32 obj = s, n = na, ngl = 0, nds_ = 0; int w = (int)hk_range(0, 2);
+            if (w == 1) { SDfileinfo(sd, &nds_, &ngl); obj = sd; n = ngl; } else if (w == 2 && dim != FAIL) { obj = dim; n = dna; }
+            char tok[24]; if (w == 0) snprintf(tok, sizeof tok, "v%d", (int)idx); else if (w == 1) snprintf(tok, sizeof tok, "f"); else snprintf(tok, sizeof tok, "d%d", (int)(dim & 0xffff));
+            if (w == 2 && dim != FAIL) q_setattr("SDsetattr(new,dimension)", tok, dim, "dattr2", DFNT_INT32, 1, ibuf);   /* a dimension that has no coordinate variable yet must not get one from a refused request */
+            if (n > 0) { char an_[H4_MAX_NC_NAME + 1]; int32 at = 0, ac = 0, a = (int32)hk_range(0, n - 1);
+                if (SDattrinfo(obj, a, an_, &at, &ac) != FAIL && ac > 0 && (long)ac * DFKNTsize(at) <= (long)sizeof qbig && SDreadattr(obj, a, qbig) != FAIL) {
+                    QCALL(w == 0 ? "SDsetattr(identical,data-set)" : w == 1 ? "SDsetattr(identical,file)" : "SDsetattr(identical,dimension)", 1, SDsetattr(obj, an_, at, ac, qbig));
+                    q_setattr("SDsetattr(count0)", tok, obj, an_, at, 0, qbig); } } } break;
+        case 7: {                            /* SDwritedata: the values that are stored (one element, the whole array); a zero edge stores nothing (see the rule above) */
+            long tot = DFKNTsize(nt); int ok = 1; for (int d = 0; d < rk; d++) { if (dm[d] <= 0) ok = 0; tot *= dm[d]; }
+            if (ok && SDreaddata(s, zero, NULL, one, qbig) != FAIL) QSD("SDwritedata(stored,one-element)", SDwritedata(s, zero, NULL, one, qbig));
+            if (ok && tot <= (long)sizeof qbig && SDreaddata(s, zero, NULL, dm, qbig) != FAIL) QSD("SDwritedata(stored,whole)", SDwritedata(s, zero, NULL, dm, qbig));
+            QCALL("SDwritedata(zero-edges)", 0, SDwritedata(s, zero, NULL, zero, qbig));
+            if (rk > 1 && ok) { int32 e_[4] = {1, 1, 1, 1}; e_[hk_range(0, rk - 1)] = 0; QCALL("SDwritedata(one-zero-edge)", 0, SDwritedata(s, zero, NULL, e_, qbig)); } } break;
+        case 8: { HDF_CHUNK_DEF cd; int32 fl = 0; memset(&cd, 0, sizeof cd);   /* the stored chunk definition / the stored chunk */
+            if (SDgetchunkinfo(s, &cd, &fl) != FAIL && fl != HDF_NONE) { long cb = DFKNTsize(nt); for (int d = 0; d < rk; d++) cb *= cd.chunk_lengths[d];
+                QSD("SDsetchunk(stored)", SDsetchunk(s, cd, fl));
+                if (cb > 0 && cb <= (long)sizeof qbig && SDreadchunk(s, zero, qbig) != FAIL) QSD("SDwritechunk(stored)", SDwritechunk(s, zero, qbig));
+                QCALL("SDsetchunkcache", 0, SDsetchunkcache(s, 4, 0)); } } break;
+        case 9: { comp_coder_t ct = COMP_CODE_INVALID; comp_info ci; memset(&ci, 0, sizeof ci);
+            if (SDgetcompinfo(s, &ct, &ci) != FAIL && ct != COMP_CODE_NONE && ct != COMP_CODE_INVALID) QSD("SDsetcompress(stored)", SDsetcompress(s, ct, &ci));
+            else { memset(&ci, 0, sizeof ci); QSD("SDsetcompress(none)", SDsetcompress(s, COMP_CODE_NONE, &ci)); } } break;
+        case 10: { int32 dd[H4_MAX_VAR_DIMS]; for (int d = 0; d < rk; d++) dd[d] = dm[d]; if (dsz == 0 && rk > 0) dd[0] = SD_UNLIMITED;   /* a data set that exists */
+            int32 n_ = (int32)QSD("SDcreate(existing-name)", SDcreate(sd, nm, nt, rk, dd));
+            if (sd_tied) { printf("T ro sd.create "); hk_hex(nm, strlen(nm)); printf(" %d ", (int)nt); for (int d = 0; d < rk; d++) printf("%s%d", d ? "," : "", (int)dd[d]); printf(" => %s\n", n_ == FAIL ? "fail" : "ok"); }
+            if (n_ != FAIL) SDendaccess(n_); } break;
+        case 11: if (dim != FAIL) {          /* SDsetdimval_comp: the mode the dimension has (nothing to do), the other one */
+            int cur = SDisdimval_bwcomp(dim);
+            if (cur != FAIL) { QCALL("SDsetdimval_comp(current)", 0, SDsetdimval_comp(dim, cur)); long rr = QSD("SDsetdimval_comp(other)", SDsetdimval_comp(dim, !cur));
+                if (rr != FAIL && SDisdimval_bwcomp(dim) != cur) SDsetdimval_comp(dim, cur); } } break;
+        default: QSD("SDsetfillmode", SDsetfillmode(sd, hk_chance(50) ? SD_FILL : SD_NOFILL)); QCALL("SDsetblocksize", 0, SDsetblocksize(s, 64)); break;
+    }
+    view_sds(s, &v1); view_cmp("SD", qdid, &v0, &v1);
+    tsd_views(sd, idx, s);
+    if (hk_chance(30)) {   /* SDsetnbitdataset, judged on its own: it is the one sibling of SDsetcompress / SDsetchunk / SDsetexternalfile that repair c112a10 did not reach */
+        static view_t v2; QSD("SDsetnbitdataset", SDsetnbitdataset(s, 0, 4, 0, 0)); view_sds(s, &v2);
+        if (strcmp(v1.s, v2.s) != 0) { sd_view_tainted = 1; hk_fail("ro-view-changed:SD-nbit-ref-kept", "a refused SDsetnbitdataset on a read-only file changed what the session reads: before {%.700s} after {%.700s}", v1.s, v2.s); }
+    }
+    CALL("SDendaccess", 0, SDendaccess(s));
+    hk_stat("quiet_sd", 1); (void)ibuf;
+}
+static int32 absent_ref(const int32 *refs, int n) { for (int32 r = 4321;; r++) { int hit = 0; for (int i = 0; i < n; i++) if (refs[i] == r) hit = 1; if (!hit) return r; } }
+static void quiet_v(int32 fid)
+{
+    int32 refs[64]; int n = 0; int32 r = -1; while (n < 64 && (r = Vgetid(fid, r)) != FAIL) refs[n++] = r; if (!n) return;
+    int32 vgref = refs[hk_range(0, n - 1)];
+    int32 vg = (int32)CALL("Vattach", 0, Vattach(fid, vgref, "r")); if (vg == FAIL) return;
+    static view_t v0, v1; view_vg(vg, &v0); qdid[0] = 0;
+    char nm[1024] = "", cl[1024] = ""; uint16 nl = 0, kl = 0;
+    if (Vgetnamelen(vg, &nl) == SUCCEED && nl < sizeof nm && Vgetname(vg, nm) != FAIL) QCALL("Vsetname(current)", 1, Vsetname(vg, nm));
+    if (Vgetclassnamelen(vg, &kl) == SUCCEED && kl < sizeof cl && Vgetclass(vg, cl) != FAIL) QCALL("Vsetclass(current)", 1, Vsetclass(vg, cl));
+    QCALL("Vsetname(empty)", 1, Vsetname(vg, "")); QCALL("Vsetclass(empty)", 1, Vsetclass(vg, ""));
+    int32 nmem = Vntagrefs(vg);
+    if (nmem > 0) { int32 t_ = 0, r_ = 0; if (Vgettagref(vg, (int32)hk_range(0, nmem - 1), &t_, &r_) != FAIL) {
+        QCALL("Vaddtagref(member)", 1, Vaddtagref(vg, t_, r_));
+        if (t_ == DFTAG_VH) { int32 m = VSattach(fid, r_, "r"); if (m != FAIL) { QCALL("Vinsert(member-vdata)", 1, Vinsert(vg, m)); VSdetach(m); } }
+        else if (t_ == DFTAG_VG && r_ != vgref) { int32 m = Vattach(fid, r_, "r"); if (m != FAIL) { QCALL("Vinsert(member-vgroup)", 1, Vinsert(vg, m)); Vdetach(m); } } } }
+    QCALL("Vdeletetagref(not-a-member)", 1, Vdeletetagref(vg, 1234, 77));
+    int32 na = Vnattrs(vg);
+    if (na > 0) { char an_[256]; int32 at = 0, ac = 0, asz = 0, ai = (int32)hk_range(0, na - 1);
+        if (Vattrinfo(vg, ai, an_, &at, &ac, &asz) != FAIL && asz > 0 && asz <= (int32)sizeof qbig && Vgetattr(vg, ai, qbig) != FAIL) {
+            QCALL("Vsetattr(identical)", 1, Vsetattr(vg, an_, at, ac, qbig)); QCALL("Vsetattr(count0)", 1, Vsetattr(vg, an_, at, 0, qbig)); } }
+    QCALL("Vdelete(absent)", 1, Vdelete(fid, absent_ref(refs, n)));
+    { int32 w = (int32)QCALL("Vattach(w,attached)", 1, Vattach(fid, vgref, "w")); if (w != FAIL) Vdetach(w); }
+    view_vg(vg, &v1); view_cmp("V", qdid, &v0, &v1);
+    CALL("Vdetach", 0, Vdetach(vg));
+    hk_stat("quiet_v", 1);
+}
+static void quiet_vs(int32 fid)
+{
+    int32 refs[64]; int n = 0; int32 r = -1; while (n < 64 && (r = VSgetid(fid, r)) != FAIL) refs[n++] = r; if (!n) return;
+    int32 vsref = refs[hk_range(0, n - 1)];
+    int32 vs = (int32)CALL("VSattach", 0, VSattach(fid, vsref, "r")); if (vs == FAIL) return;
+    static view_t v0, v1; view_vs(vs, &v0); qdid[0] = 0;
+    static char fields[VSFIELDMAX * (FIELDNAMELENMAX + 1) + 8]; char nm[VSNAMELENMAX + 1] = "", cl[VSNAMELENMAX + 1] = ""; fields[0] = 0;
+    if (VSgetname(vs, nm) != FAIL) QCALL("VSsetname(current)", 1, VSsetname(vs, nm));
+    if (VSgetclass(vs, cl) != FAIL) QCALL("VSsetclass(current)", 1, VSsetclass(vs, cl));
+    { int32 il = VSgetinterlace(vs); if (il != FAIL) QCALL("VSsetinterlace(current)", 1, VSsetinterlace(vs, il)); }
+    if (VSgetfields(vs, fields) > 0) {
+        QCALL("VSsetfields(stored)", 0, VSsetfields(vs, fields));
+        int32 rs = VSsizeof(vs, fields);
+        if (rs > 0 && rs <= (int32)sizeof qbig && VSelts(vs) > 0 && VSseek(vs, 0) != FAIL && VSread(vs, qbig, 1, FULL_INTERLACE) == 1 && VSseek(vs, 0) != FAIL) QCALL("VSwrite(stored-record)", 1, VSwrite(vs, qbig, 1, FULL_INTERLACE));
+        QCALL("VSwrite(count0)", 1, VSwrite(vs, qbig, 0, FULL_INTERLACE));
+    }
+    { int32 na = VSfnattrs(vs, _HDF_VDATA);
+      if (na > 0) { char an_[256]; int32 at = 0, ac = 0, asz = 0, ai = (int32)hk_range(0, na - 1);
+        if (VSattrinfo(vs, _HDF_VDATA, ai, an_, &at, &ac, &asz) != FAIL && asz > 0 && asz <= (int32)sizeof qbig && VSgetattr(vs, _HDF_VDATA, ai, qbig) != FAIL) {
+            QCALL("VSsetattr(identical)", 1, VSsetattr(vs, _HDF_VDATA, an_, at, ac, qbig)); QCALL("VSsetattr(count0)", 1, VSsetattr(vs, _HDF_VDATA, an_, at, 0, qbig)); } } }
+    QCALL("VSdelete(absent)", 1, VSdelete(fid, absent_ref(refs, n)));
+    QCALL("VHstoredata(count0)", 1, VHstoredata(fid, "f", qbig, 0, DFNT_UINT8, "vh", "c"));
+    { int32 tt[1] = {1000}, rr[1] = {1}; QCALL("VHmakegroup(no-members)", 1, VHmakegroup(fid, tt, rr, 0, "g", "c")); }
+    QCALL("VSsetexternalfile", 1, VSsetexternalfile(vs, sdext, 0));
+    QCALL("VSappendable", 0, VSappendable(vs, 64)); QCALL("VSsetblocksize", 0, VSsetblocksize(vs, 64)); QCALL("VSsetnumblocks", 0, VSsetnumblocks(vs, 4));
+    { int32 w = (int32)QCALL("VSattach(w,attached)", 1, VSattach(fid, vsref, "w")); if (w != FAIL) VSdetach(w); }
+    view_vs(vs, &v1); view_cmp("VS", qdid, &v0, &v1);
+    CALL("VSdetach", 0, VSdetach(vs));
+    hk_stat("quiet_vs", 1);
+}
+static void quiet_gr(int32 gr)
+{
+    int32 nimg = 0, ngat = 0; if (gr == FAIL || GRfileinfo(gr, &nimg, &ngat) == FAIL || nimg <= 0) return;
+    int32 ri = (int32)CALL("GRselect", 0, GRselect(gr, (int32)hk_range(0, nimg - 1))); if (ri == FAIL) return;
+    static view_t v0, v1; view_ri(ri, &v0); qdid[0] = 0;
+    char nm[H4_MAX_GR_NAME + 1] = ""; int32 nc = 0, nt = 0, il = 0, dm[2] = {0, 0}, na = 0, zero[2] = {0, 0}, one[2] = {1, 1};
+    if (GRgetiminfo(ri, nm, &nc, &nt, &il, dm, &na) == FAIL) { CALL("GRendaccess", 0, GRendaccess(ri)); return; }
+    { int onimg = hk_chance(60); int32 obj = onimg ? ri : gr, n = onimg ? na : ngat;
+      if (n > 0) { char an_[H4_MAX_GR_NAME + 1]; int32 at = 0, ac = 0, ai = (int32)hk_range(0, n - 1);
+        if (GRattrinfo(obj, ai, an_, &at, &ac) != FAIL && ac > 0 && (long)ac * DFKNTsize(at) <= (long)sizeof qbig && GRgetattr(obj, ai, qbig) != FAIL) {
+            QCALL(onimg ? "GRsetattr(identical,image)" : "GRsetattr(identical,file)", 1, GRsetattr(obj, an_, at, ac, qbig)); QCALL("GRsetattr(count0)", 1, GRsetattr(obj, an_, at, 0, qbig)); } } }
+    if (nc > 0 && dm[0] > 0 && dm[1] > 0) { long tot = (long)dm[0] * dm[1] * nc * DFKNTsize(nt);
+        if (GRreadimage(ri, zero, NULL, one, qbig) != FAIL) QCALL("GRwriteimage(stored,one-pixel)", 1, GRwriteimage(ri, zero, NULL, one, qbig));
+        if (tot <= (long)sizeof qbig && GRreadimage(ri, zero, NULL, dm, qbig) != FAIL) QCALL("GRwriteimage(stored,whole)", 1, GRwriteimage(ri, zero, NULL, dm, qbig));
+        QCALL("GRwriteimage(zero-edges)", 1, GRwriteimage(ri, zero, NULL, zero, qbig)); }
+    { int32 pal = (int32)CALL("GRgetlutid", 0, GRgetlutid(ri, 0)), pnc = 0, pnt = 0, pil = 0, pne = 0;
+      if (pal != FAIL) { if (GRgetlutinfo(pal, &pnc, &pnt, &pil, &pne) != FAIL && pne > 0 && (long)pnc * pne * DFKNTsize(pnt) <= (long)sizeof qbig && GRreadlut(pal, qbig) != FAIL) QCALL("GRwritelut(stored)", 1, GRwritelut(pal, pnc, pnt, pil, pne, qbig));
+          QCALL("GRwritelut(no-entries)", 1, GRwritelut(pal, 3, DFNT_UINT8, MFGR_INTERLACE_PIXEL, 0, qbig)); } }
+    { comp_coder_t ct = COMP_CODE_INVALID; comp_info ci; memset(&ci, 0, sizeof ci);
+      if (GRgetcompinfo(ri, &ct, &ci) != FAIL && ct != COMP_CODE_NONE && ct != COMP_CODE_INVALID) QCALL("GRsetcompress(stored)", 1, GRsetcompress(ri, ct, &ci));
+      else { memset(&ci, 0, sizeof ci); QCALL("GRsetcompress(none)", 1, GRsetcompress(ri, COMP_CODE_NONE, &ci)); } }
+    { HDF_CHUNK_DEF cd; int32 fl = 0; memset(&cd, 0, sizeof cd);
+      if (GRgetchunkinfo(ri, &cd, &fl) != FAIL && fl != HDF_NONE) { long cb = (long)cd.chunk_lengths[0] * cd.chunk_lengths[1] * nc * DFKNTsize(nt);
+          QCALL("GRsetchunk(stored)", 1, GRsetchunk(ri, cd, fl));
+          if (cb > 0 && cb <= (long)sizeof qbig && GRreadchunk(ri, zero, qbig) != FAIL) QCALL("GRwritechunk(stored)", 1, GRwritechunk(ri, zero, qbig)); } }
+    { int32 n_ = (int32)QCALL("GRcreate(existing-name)", 1, GRcreate(gr, nm, nc, nt, il, dm)); if (n_ != FAIL) GRendaccess(n_); }
+    QCALL("GRsetaccesstype", 0, GRsetaccesstype(ri, DFACC_SERIAL)); QCALL("GRreqimageil", 0, GRreqimageil(ri, il)); QCALL("GRsetchunkcache", 0, GRsetchunkcache(ri, 4, 0));
+    view_ri(ri, &v1); view_cmp("GR", qdid, &v0, &v1);
+    CALL("GRendaccess", 0, GRendaccess(ri));
+    hk_stat("quiet_gr", 1);
+}
+static void quiet_an(int32 an)
+{
+    int32 n4[4] = {0, 0, 0, 0}; ann_type ty[4] = {AN_FILE_LABEL, AN_FILE_DESC, AN_DATA_LABEL, AN_DATA_DESC};
+    if (an == FAIL || ANfileinfo(an, &n4[0], &n4[1], &n4[2], &n4[3]) == FAIL) return;
+    int q0 = (int)hk_range(0, 3);
+    for (int j = 0; j < 4; j++) { int q = (q0 + j) % 4; if (n4[q] <= 0) continue;
+        int32 a = (int32)CALL("ANselect", 0, ANselect(an, (int32)hk_range(0, n4[q] - 1), ty[q])); if (a == FAIL) return;
+        static char t0[4096], t1[4096]; int32 l0 = ANannlen(a);
+        if (l0 >= 0 && l0 < (int32)sizeof t0 - 1 && ANreadann(a, t0, l0 + 1) != FAIL) {
+            qdid[0] = 0;
+            QCALL("ANwriteann(same-text)", 1, ANwriteann(a, t0, l0)); QCALL("ANwriteann(len0)", 1, ANwriteann(a, t0, 0));
+            int32 l1 = ANannlen(a);
+            if (l1 != l0 || ANreadann(a, t1, l1 + 1) == FAIL || memcmp(t0, t1, (size_t)l0) != 0) hk_fail("ro-view-changed:AN", "%s: an annotation of a read-only file reads back differently (length %d -> %d)", qdid, (int)l0, (int)l1);
+        }
+        CALL("ANendaccess", 0, ANendaccess(a)); hk_stat("quiet_an", 1); return; }
+}
+static void quiet_h(int32 fid)
+{
+    if (nents <= 0) return;
+    ent_t *e = NULL; for (int tries = 0; tries < 12 && !e; tries++) { ent_t *c = &ents[hk_range(0, nents - 1)]; if (!c->special && c->len > 0 && c->len <= (int32)sizeof qbig / 2 && c->tag != DFTAG_VERSION) e = c; }
+    if (!e) return;
+    uint16 t = e->tag, r = e->ref; static uint8 b0[1 << 15], b1[1 << 15]; qdid[0] = 0;
+    int32 l0 = Hlength(fid, t, r), g0 = Hgetelement(fid, t, r, b0);
+    int32 a = (int32)CALL("Hstartread", 0, Hstartread(fid, t, r));
+    if (a != FAIL) { int32 n = Hread(a, e->len < 64 ? e->len : 64, qbig); Hseek(a, 0, DF_START);
+        if (n > 0) QCALL("Hwrite(stored-bytes)", 1, Hwrite(a, n, qbig));
+        QCALL("Hwrite(len0)", 1, Hwrite(a, 0, qbig)); QCALL("Htrunc(current-length)", 1, Htrunc(a, e->len)); QCALL("Hsetlength(current-length)", 1, Hsetlength(a, e->len));
+        CALL("Hendaccess", 0, Hendaccess(a)); }
+    if (g0 > 0) QCALL("Hputelement(stored-bytes)", 1, Hputelement(fid, t, r, b0, g0));
+    QCALL("Hputelement(len0)", 1, Hputelement(fid, t, r, b0, 0));
+    { int32 w = (int32)QCALL("Hstartwrite(len0)", 1, Hstartwrite(fid, t, r, 0)); if (w != FAIL) Hendaccess(w); }
+    { int32 w = (int32)QCALL("Hstartwrite(current-length)", 1, Hstartwrite(fid, t, r, e->len)); if (w != FAIL) Hendaccess(w); }
+    QCALL("Hdeldd(absent)", 1, Hdeldd(fid, 1290, 9)); QCALL("Hdupdd(onto-itself)", 1, Hdupdd(fid, t, r, t, r)); QCALL("HDreuse_tagref(absent)", 1, HDreuse_tagref(fid, 1290, 9));
+    int32 l1 = Hlength(fid, t, r), g1 = Hgetelement(fid, t, r, b1);
+    if (l1 != l0 || g1 != g0 || (g0 > 0 && memcmp(b0, b1, (size_t)g0) != 0)) hk_fail("ro-view-changed:H", "%s: element %u/%u of a read-only file reads back differently (length %d -> %d)", qdid, t, r, (int)l0, (int)l1);
+    hk_stat("quiet_h", 1);
+}
+
 /* ------------------------------------------------------------------------------------------------ part B */
 static void part_b(const char *path)
 {
     long n0, ne0 = -1, ns0 = -1; unsigned char *img = slurp(path, &n0), *eimg = slurp(extname, &ne0), *simg = slurp(sdext, &ns0);
     static uint8 buf[1 << 14]; static int32 ibuf[4096];
-    flagged_write = flagged_accept = 0;
+    flagged_write = flagged_accept = 0; sd_view_tainted = 0;
     wr_reset(); wr_enabled = 1; ro_mode = 1; ro_base = 0;
     int32 fid = (int32)CALL("Hopen", 0, Hopen(path, DFACC_READ, 0));
     if (fid == FAIL) { hk_fail("ro-open", "Hopen(DFACC_READ) of the generated file failed"); goto out; }
@@ -485,6 +863,7 @@ static void part_b(const char *path)
     int32 an = (int32)CALL("ANstart", 0, ANstart(fid));
     int32 gr = (int32)CALL("GRstart", 0, GRstart(fid));
     int32 sd = (int32)CALL("SDstart", 0, SDstart(path, DFACC_READ));
+    sd_snapshot(sd);
     int32 vsref = VSgetid(fid, -1), vgref = Vgetid(fid, -1);
     int32 vs_r = vsref > 0 ? (int32)CALL("VSattach", 0, VSattach(fid, vsref, "r")) : FAIL;
     int32 vg_r = vgref > 0 ? (int32)CALL("Vattach", 0, Vattach(fid, vgref, "r")) : FAIL;
@@ -495,11 +874,16 @@ static void part_b(const char *path)
     int32 ann = an != FAIL ? (int32)CALL("ANselect", 0, ANselect(an, 0, AN_DATA_LABEL)) : FAIL;
     int32 aid_r = FAIL; { uint16 t, r; pick_tr(&t, &r, 0); aid_r = (int32)CALL("Hstartread", 0, Hstartread(fid, t, r)); }
     int32 newvs = FAIL, newvg = FAIL, newsds = FAIL, newri = FAIL, newann = FAIL;
+    /* baseline view of each id the session holds, taken when the id is obtained and compared when it is given back */
+    static view_t vbase[4], vnow;
+#define BASE_TAKE(id, fn, slot) do { if ((id) != FAIL) fn(id, &vbase[slot]); } while (0)
+#define BASE_CHECK(id, fn, fam, slot) do { if ((id) != FAIL && !((slot) == 0 && sd_view_tainted)) { fn(id, &vnow); view_cmp(fam, "an id held through the session", &vbase[slot], &vnow); } } while (0)
+    BASE_TAKE(sds, view_sds, 0); BASE_TAKE(ri, view_ri, 1); BASE_TAKE(vs_r, view_vs, 2); BASE_TAKE(vg_r, view_vg, 3);
     int nops = (int)hk_range(20, 60);
     for (int i = 0; i < nops; i++) {
         uint16 t, r; pick_tr(&t, &r, 0);
         int32 d2[2] = {3, 4}, st2[2] = {0, 0};
-        switch ((int)hk_range(0, 78)) {
+        switch ((int)hk_range(0, 92)) {
             /* ---- H */
             case 0: CALL("Hputelement", 1, Hputelement(fid, t, r, buf, 10)); break;
             case 1: { int32 a = (int32)CALL("Hstartwrite", 1, Hstartwrite(fid, t, r, 10)); if (a != FAIL) Hendaccess(a); } break;
@@ -531,7 +915,7 @@ static void part_b(const char *path)
             case 26: CALL("Vdeletetagref", 1, Vdeletetagref(vg_r, 1000, 1)); break;
             case 27: CALL("Vsetattr", 1, Vsetattr(vg_r, hk_chance(50) ? "att" : "vgatt" /* exists in prep_rich files, same type and count */, DFNT_INT32, 1, ibuf)); break;
             case 28: CALL("Vdelete", 1, Vdelete(fid, vgref > 0 ? vgref : 1)); break;
-            case 29: { if (vg_r != FAIL) CALL("Vdetach", 0, Vdetach(vg_r)); vg_r = vgref > 0 ? (int32)CALL("Vattach", 0, Vattach(fid, vgref, "r")) : FAIL; } break;
+            case 29: { BASE_CHECK(vg_r, view_vg, "V", 3); if (vg_r != FAIL) CALL("Vdetach", 0, Vdetach(vg_r)); vg_r = vgref > 0 ? (int32)CALL("Vattach", 0, Vattach(fid, vgref, "r")) : FAIL; BASE_TAKE(vg_r, view_vg, 3); } break;
             case 30: { int32 v = (int32)CALL("VSattach(-1,w)", 1, VSattach(fid, -1, "w")); if (v != FAIL) newvs = v; } break;
             case 31: { int32 v = vsref > 0 ? (int32)CALL("VSattach(w)", 1, VSattach(fid, vsref, "w")) : FAIL; if (v != FAIL) newvs = v; } break;
             case 32: { if (vs_r != FAIL) { VSsetfields(vs_r, "a,b"); CALL("VSwrite", 1, VSwrite(vs_r, buf, 1, FULL_INTERLACE)); } } break;
@@ -541,12 +925,12 @@ static void part_b(const char *path)
             /* VSfdefine only enters a name in the handle's table of user-defined symbols (vs->usym); that table is never stored,
                only a later VSsetfields + VSwrite would use it: not a mutation of the Vdata */
             case 36: CALL("VSfdefine", 0, VSfdefine(vs_r, "zz", DFNT_INT32, 1)); break;
-            case 37: { if (vs_r != FAIL) { CALL("VSdetach", 0, VSdetach(vs_r)); vs_r = FAIL; }
+            case 37: { BASE_CHECK(vs_r, view_vs, "VS", 2); if (vs_r != FAIL) { CALL("VSdetach", 0, VSdetach(vs_r)); vs_r = FAIL; }
                        long rr = CALL("VSdelete", 1, VSdelete(fid, vsref > 0 ? vsref : 1));
-                       if (vsref > 0) { vs_r = (int32)CALL("VSattach", 0, VSattach(fid, vsref, "r")); if (rr == FAIL && vs_r == FAIL) hk_fail("ro-vsdelete-unchecked", "VSdelete on a read-only file returned FAIL but removed the Vdata from the file's table (VSattach now fails)"); } } break;
+                       if (vsref > 0) { vs_r = (int32)CALL("VSattach", 0, VSattach(fid, vsref, "r")); if (rr == FAIL && vs_r == FAIL) hk_fail("ro-vsdelete-unchecked", "VSdelete on a read-only file returned FAIL but removed the Vdata from the file's table (VSattach now fails)"); BASE_CHECK(vs_r, view_vs, "VS", 2); } } break;
             case 38: CALL("VHstoredata", 1, VHstoredata(fid, "f", buf, 4, DFNT_UINT8, "vh", "c")); break;
             case 39: { if (vs_r != FAIL) { VSsetfields(vs_r, "a"); CALL("VSread", 0, VSread(vs_r, buf, 1, FULL_INTERLACE)); CALL("VSseek", 0, VSseek(vs_r, 0)); } } break;
-            case 40: { if (vs_r != FAIL) CALL("VSdetach", 0, VSdetach(vs_r)); vs_r = vsref > 0 ? (int32)CALL("VSattach", 0, VSattach(fid, vsref, "r")) : FAIL; } break;
+            case 40: { BASE_CHECK(vs_r, view_vs, "VS", 2); if (vs_r != FAIL) CALL("VSdetach", 0, VSdetach(vs_r)); vs_r = vsref > 0 ? (int32)CALL("VSattach", 0, VSattach(fid, vsref, "r")) : FAIL; BASE_TAKE(vs_r, view_vs, 2); } break;
             /* ---- SD */
             case 41: { int32 s = (int32)CALL("SDcreate", 1, SDcreate(sd, "newsds", DFNT_INT32, 2, d2)); if (s != FAIL) newsds = s; } break;
             case 42: { int32 s_ = hk_chance(70) ? sds : newsds; int32 rk = 0, dm[H4_MAX_VAR_DIMS], nt = 0, na = 0; char nm[256]; if (SDgetinfo(s_, nm, &rk, dm, &nt, &na) != FAIL && rk > 0 && rk <= 4) { int32 st[4] = {0, 0, 0, 0}, ct[4] = {1, 1, 1, 1}; CALL("SDwritedata", 1, SDwritedata(s_, st, NULL, ct, ibuf)); } } break;
@@ -567,7 +951,7 @@ static void part_b(const char *path)
             case 50: CALL("SDsetcal", 1, SDsetcal(sds, 1.0, 0.0, 0.0, 0.0, DFNT_INT16)); break;
             case 51: CALL("SDsetrange", 1, SDsetrange(sds, ibuf, ibuf + 1)); break;
             case 52: { int32 rk = 0, dm[H4_MAX_VAR_DIMS], nt = 0, na = 0; char nm[256]; if (SDgetinfo(sds, nm, &rk, dm, &nt, &na) != FAIL && rk > 0 && rk <= 4) { int32 st[4] = {0, 0, 0, 0}, ct[4] = {1, 1, 1, 1}; CALL("SDreaddata", 0, SDreaddata(sds, st, NULL, ct, ibuf)); } } break;
-            case 53: { if (sds != FAIL) CALL("SDendaccess", 0, SDendaccess(sds)); sds = (sd != FAIL && nsds > 0) ? (int32)CALL("SDselect", 0, SDselect(sd, (int32)hk_range(0, nsds - 1))) : FAIL; } break;
+            case 53: { BASE_CHECK(sds, view_sds, "SD", 0); if (sds != FAIL) CALL("SDendaccess", 0, SDendaccess(sds)); sds = (sd != FAIL && nsds > 0) ? (int32)CALL("SDselect", 0, SDselect(sd, (int32)hk_range(0, nsds - 1))) : FAIL; BASE_TAKE(sds, view_sds, 0); } break;
             case 54: CALL("SDsetblocksize", 0, SDsetblocksize(sds, 64)); break;
             /* ---- GR */
             case 55: { int32 g = (int32)CALL("GRcreate", 1, GRcreate(gr, "newimg", 1, DFNT_UINT8, MFGR_INTERLACE_PIXEL, d2)); if (g != FAIL) newri = g; } break;
@@ -580,7 +964,7 @@ static void part_b(const char *path)
             case 60: { comp_info ci; memset(&ci, 0, sizeof ci); ci.deflate.level = 1; CALL("GRsetcompress", 1, GRsetcompress(hk_chance(50) ? ri : newri, COMP_CODE_DEFLATE, &ci)); } break;
             case 61: { HDF_CHUNK_DEF c; memset(&c, 0, sizeof c); c.chunk_lengths[0] = 2; c.chunk_lengths[1] = 2; CALL("GRsetchunk", 1, GRsetchunk(hk_chance(50) ? ri : newri, c, HDF_CHUNK)); } break;
             case 62: { int32 one[2] = {1, 1}; CALL("GRreadimage", 0, GRreadimage(ri, st2, NULL, one, buf)); } break;
-            case 63: { if (ri != FAIL) CALL("GRendaccess", 0, GRendaccess(ri)); ri = (gr != FAIL && nimg_b > 0) ? (int32)CALL("GRselect", 0, GRselect(gr, (int32)hk_range(0, nimg_b - 1))) : FAIL; } break;
+            case 63: { BASE_CHECK(ri, view_ri, "GR", 1); if (ri != FAIL) CALL("GRendaccess", 0, GRendaccess(ri)); ri = (gr != FAIL && nimg_b > 0) ? (int32)CALL("GRselect", 0, GRselect(gr, (int32)hk_range(0, nimg_b - 1))) : FAIL; BASE_TAKE(ri, view_ri, 1); } break;
             /* ---- AN */
             case 64: { int32 a = (int32)CALL("ANcreate", 1, ANcreate(an, 1000, 1, hk_chance(50) ? AN_DATA_LABEL : AN_DATA_DESC)); if (a != FAIL) newann = a; } break;
             case 65: { int32 a = (int32)CALL("ANcreatef", 1, ANcreatef(an, hk_chance(50) ? AN_FILE_LABEL : AN_FILE_DESC)); if (a != FAIL) newann = a; } break;
@@ -600,9 +984,19 @@ static void part_b(const char *path)
             case 77: { HDF_CHUNK_DEF cd_; int32 fl_ = 0, org[2] = {0, 0}; memset(&cd_, 0, sizeof cd_);
                        if (ri != FAIL && GRgetchunkinfo(ri, &cd_, &fl_) != FAIL) { static uint8 cb_[65536]; memset(cb_, 0x5a, sizeof cb_);
                            CALL("GRwritechunk", 1, GRwritechunk(ri, org, cb_)); } } break;
+            case 78: reopen_sds(sd, nsds, ibuf); break;
+            /* ---- requests that leave nothing to do (stored value again, name in use, member / non-member, zero counts, identical attribute ...) */
+            case 79: case 80: case 81: case 82: quiet_sd(sd, nsds, ibuf); break;
+            case 83: case 84: quiet_v(fid); break;
+            case 85: case 86: quiet_vs(fid); break;
+            case 87: case 88: quiet_gr(gr); break;
+            case 89: quiet_an(an); break;
+            case 90: case 91: quiet_h(fid); break;
             default: reopen_sds(sd, nsds, ibuf); break;
         }
     }
+    /* what the session's own ids show at the end is what they showed when they were obtained, whatever was asked in between */
+    BASE_CHECK(sds, view_sds, "SD", 0); BASE_CHECK(ri, view_ri, "GR", 1); BASE_CHECK(vs_r, view_vs, "VS", 2); BASE_CHECK(vg_r, view_vg, "V", 3);
     /* release everything (the detach/end calls of objects a mutating call handed out are part of the test) */
     if (newann != FAIL) CALL("ANendaccess(new)", 0, ANendaccess(newann));
     if (ann != FAIL) CALL("ANendaccess", 0, ANendaccess(ann));
